@@ -41,6 +41,13 @@ var restFixed = []string{
 	`std | (for [(def i 0) (< i 3) (set i (+ i 1))] (let [x 1] (newScope [1 2 (cond (== i 1) (continue) 3)] ^(1 ~(cond (== i 2) (break) 2)))))`,
 	`std | (defn cnt [n acc] (cond (== n 0) acc (cnt (- n 1) (+ acc 1)))) @@ (cnt 50 0)`,
 	`std | (defn cntv [n & r] (cond (== n 0) (len r) (cntv (- n 1) 1 2 3))) @@ (cntv 5)`,
+	`std | (defn f [x] (cond (<= x 0) 0 (let [a 1 b (f (- x 1))] (+ a b)))) ;; (f 3) ;; (list 7 (f 2))`,
+	`std | (defn fa [x] (cond (<= x 0) [] [x (fa (- x 1))])) ;; (fa 2)`,
+	`std | (defn f3 [x] (cond (<= x 0) 0 (begin (assert (== 0 (f3 (- x 1)))) 0))) ;; (f3 2)`,
+	`std | (defn f4 [x] (cond (<= x 0) 0 (return 1 (f4 (- x 1))))) ;; (f4 2)`,
+	`std | (defn f5 [x] (cond (<= x 0) 0 ^(1 ~(f5 (- x 1)) ~@(list (f5 (- x 1)))))) ;; (f5 2)`,
+	`std | (defn f6 [x] (cond (<= x 0) 0 (package "p" (def Y 1) (f6 (- x 1))))) ;; (f6 2)`,
+	`std | (defn f7 [x] (cond (<= x 0) 0 (letseq [a 1 b (f7 (- x 1))] (+ a b)))) ;; (f7 3)`,
 	`std | (defn lz [#x p] (cond p (+ (force #x) (force #x)) 0)) @@ (lz (+ 2 3) true) @@ (lz (+ 2 3) false)`,
 	`std | (defmac when2 [p & body] ^(cond ~p (begin ~@body) nil)) @@ (when2 true 1 2 3) @@ (when2 false 1)`,
 	`std | (def l (list 1 2 3)) @@ ^(0 ~@l 4) @@ ^[0 ~@l 4] @@ (def q 7) @@ ^{a: ~q}`,
@@ -641,7 +648,7 @@ func (r *rg) decl() string {
 			save, sl := r.locals, r.labels
 			r.locals, r.labels = append([]string{}, ps...), nil
 			var s string
-			switch r.rnd(4) {
+			switch r.rnd(5) {
 			case 0:
 				rec := "(- x 1)"
 				if n == 2 {
@@ -661,6 +668,19 @@ func (r *rg) decl() string {
 				}
 				// tail call out of nested scopes
 				s = fmt.Sprintf("(defn %s [%s] (let [u x] (newScope (cond (<= u 0) %s (%s %s)))))", f, strings.Join(ps, " "), r.ie(1), f, rec)
+			case 3:
+				// self calls in positions that are not tail positions although the enclosing form is
+				rec := "(- x 1)"
+				if n == 2 {
+					rec += " y"
+				}
+				call := fmt.Sprintf("(%s %s)", f, rec)
+				shape := r.pick([]string{
+					"(let [u 1 t %s] (+ t u))", "(letseq [u 1 t %s] (+ t u))", "(first [%s 1])", "(aget [1 %s] 1)",
+					"(begin (assert (== %s %s)) 1)", "(aget (return 1 %s) 1)", "(len ^(1 ~%s))", "(len ^[1 ~@(list %s)])",
+					"(begin (package \"pq\" (def Y 1) %s) 2)"})
+				shape = strings.ReplaceAll(shape, "%s", call)
+				s = fmt.Sprintf("(defn %s [%s] (cond (<= x 0) %s %s))", f, strings.Join(ps, " "), r.ie(1), shape)
 			default:
 				s = fmt.Sprintf("(defn %s [%s] %s)", f, strings.Join(ps, " "), r.body(3))
 			}
